@@ -330,11 +330,21 @@ def isinstance_(e: Engine, n: ast.Call, st: State) -> SV:
 def getattr_(e: Engine, n: ast.Call, st: State) -> SV:
     recv = e.ev(n.args[0], st)
     key = e.ev(n.args[1], st)
+    dflt = e.ev(n.args[2], st) if len(n.args) == 3 else None
+    if key.tag and key.tag[0] == "oneof":
+        # the loop variable of a `for` over a literal list of names: case split over the (source-constant) candidates
+        cands = list(key.tag[1])
+        res = _getattr_lit(e, st, recv, cands[-1], dflt)
+        for c in reversed(cands[:-1]):
+            res = ite_sv(key.v == S(c), _getattr_lit(e, st, recv, c, dflt), res)
+        return res
     if not (key.tag and key.tag[0] == "lit"):
         raise Unsupported("getattr with non-literal key")
-    fname = key.tag[1]
-    if len(n.args) == 3:
-        dflt = e.ev(n.args[2], st)
+    return _getattr_lit(e, st, recv, key.tag[1], dflt)
+
+
+def _getattr_lit(e: Engine, st: State, recv: SV, fname: str, dflt) -> SV:
+    if dflt is not None:
         try:
             owner, _ = e.resolve_field(st, recv, fname)
         except Unsupported:
@@ -946,6 +956,9 @@ def re_finditer(e: Engine, st: State, pat: SV, text: SV) -> SV:
         st.assume(Implies(z3.Length(lit) >= 1, (ms.v.len >= 1) == z3.Contains(tv, lit)))
         e.trust("E-RE-ESCAPE: re.escape(x) matches exactly the occurrences of x")
     e.trust("E-RE-SPAN: match objects: 0 <= start(0) <= start(g) <= end(g) <= end(0) <= len(text), m[g] == text[start(g):end(g)], non-participating group is None")
+    fn = e.reg.specs.get("on_finditer")
+    if fn is not None:
+        fn(e, st, ms, pat, text)
     return ms
 
 
